@@ -4,7 +4,7 @@ use crate::cp::TimeMap;
 use crate::framing::{bundled_files, text_of_bundled};
 use crate::gen::{gen_map, GenOpts};
 use crate::util::*;
-use rosu_map::section::hit_objects::hit_samples::HitSampleInfo;
+use rosu_map::section::hit_objects::hit_samples::{HitSampleDefaultName, HitSampleInfo, HitSampleInfoName};
 use rosu_map::section::hit_objects::{HitObject, HitObjectKind, HitObjects};
 use rosu_map::Beatmap;
 use serde_json::{json, Value};
@@ -20,12 +20,24 @@ impl TimeMap for Shifted {
 }
 
 fn smp_json(s: &HitSampleInfo) -> Value {
-    json!({"bank": s.bank as i32, "vol": s.volume, "cu": s.custom_sample_bank})
+    let name = match &s.name {
+        HitSampleInfoName::Default(HitSampleDefaultName::Normal) => "normal",
+        HitSampleInfoName::Default(HitSampleDefaultName::Whistle) => "whistle",
+        HitSampleInfoName::Default(HitSampleDefaultName::Finish) => "finish",
+        HitSampleInfoName::Default(HitSampleDefaultName::Clap) => "clap",
+        HitSampleInfoName::File(_) => "file",
+    };
+    json!({"name": name, "bank": s.bank as i32, "spec": s.bank_specified, "vol": s.volume, "cu": s.custom_sample_bank,
+           "suffix": s.suffix.map_or(0, |x| x.get()), "layered": s.is_layered})
+}
+
+fn smps_json(v: &[HitSampleInfo]) -> Value {
+    Value::Array(v.iter().map(smp_json).collect())
 }
 
 fn proj(h: &mut HitObject) -> Value {
     let t = num(h.start_time);
-    let smp = h.samples.first().map(smp_json).unwrap_or(json!(null));
+    let smp = smps_json(&h.samples);
     match &mut h.kind {
         HitObjectKind::Circle(c) => json!({"id": (c.pos.x as i64) / 10, "k": "circle", "t": t, "nc": c.new_combo, "vel": 0, "dur": 0, "smp": smp, "nodes": []}),
         HitObjectKind::Slider(s) => {
@@ -34,7 +46,7 @@ fn proj(h: &mut HitObject) -> Value {
             json!({"id": (s.pos.x as i64) / 10, "k": "slider", "t": t, "nc": s.new_combo,
                    "vel": if (vel - vel.round()).abs() < 1e-3 { json!(vel.round() as i64) } else { json!(vel) },
                    "dur": if (dur - dur.round()).abs() < 1e-6 { json!(dur.round() as i64) } else { json!(dur) },
-                   "smp": smp, "nodes": s.node_samples.iter().map(|n| n.first().map(smp_json).unwrap_or(json!(null))).collect::<Vec<_>>()})
+                   "smp": smp, "nodes": s.node_samples.iter().map(|n| smps_json(n)).collect::<Vec<_>>()})
         }
         HitObjectKind::Spinner(s) => json!({"id": -1, "k": "spinner", "t": t, "nc": s.new_combo, "vel": 0, "dur": num(s.duration), "smp": smp, "nodes": []}),
         HitObjectKind::Hold(s) => json!({"id": (s.pos_x as i64) / 10, "k": "hold", "t": t, "nc": false, "vel": 0, "dur": num(s.duration), "smp": smp, "nodes": []}),
@@ -42,7 +54,12 @@ fn proj(h: &mut HitObject) -> Value {
 }
 
 fn build_file(inp: &Value, timing: &[Value], rng: &mut Rng, shift: i64) -> String {
-    let mode = if gets(inp, "mode") == "mania" { 3 } else { 0 };
+    let mode = match gets(inp, "mode") {
+        "mania" => 3,
+        "catch" => 2,
+        "taiko" => 1,
+        _ => 0,
+    };
     let sm = geti(inp, "sm") as f64 / 1000.0;
     let mut s = format!("osu file format v14\n\n[General]\nMode: {mode}\n\n[Difficulty]\nSliderMultiplier:{sm}\n\n[Events]\n");
     for b in geta(inp, "breaks") {
@@ -62,19 +79,18 @@ fn build_file(inp: &Value, timing: &[Value], rng: &mut Rng, shift: i64) -> Strin
         // `-0` is a spelling of the time 0
         let t: String = if tn == 0 && rng.chance(1, 3) { "-0".into() } else { format!("{tn}") };
         let nc = if getb(o, "nc") { 4 } else { 0 };
-        let spec = getb(o, "spec");
-        let (bank, vol, cu) = (geti(o, "bank"), geti(o, "vol"), geti(o, "cu"));
-        let bi = if spec { format!("{bank}:0:{cu}:{vol}:") } else { format!("0:0:{cu}:{vol}:") };
+        let (hs, bank, abank, vol, cu) = (geti(o, "hs"), geti(o, "bank"), geti(o, "abank"), geti(o, "vol"), geti(o, "cu"));
+        let bi = format!("{bank}:{abank}:{cu}:{vol}:{}", if getb(o, "file") { "hit.wav" } else { "" });
         let line = match gets(o, "k") {
-            "circle" => format!("{x},100,{t},{},0,{bi}", 1 + nc),
+            "circle" => format!("{x},100,{t},{},{hs},{bi}", 1 + nc),
             "slider" => {
                 let len = geti(o, "len");
                 let spans = geti(o, "spans");
                 // a straight line of the requested length; the slider's own bank info is banks only
-                format!("{x},100,{t},{},0,L|{}:100,{spans},{len},,,{}", 2 + nc, x + 300, if spec { format!("{bank}:0") } else { "0:0".into() })
+                format!("{x},100,{t},{},{hs},L|{}:100,{spans},{len},,,{bank}:{abank}", 2 + nc, x + 300)
             }
-            "spinner" => format!("256,192,{t},{},0,{},{bi}", 8 + nc, tn + geti(o, "dur")),
-            _ => format!("{x},192,{t},128,0,{}:{bi}", tn + geti(o, "dur")),
+            "spinner" => format!("256,192,{t},{},{hs},{},{bi}", 8 + nc, tn + geti(o, "dur")),
+            _ => format!("{x},192,{t},128,{hs},{}:{bi}", tn + geti(o, "dur")),
         };
         s.push_str(&line);
         s.push('\n');
